@@ -99,6 +99,10 @@ def block_headers(k, bd, A):
 def blocks_of(header, bd, ing, A):
     end, sizes, cs = header
     per_clause = [seqs(m - 1, bd - 1, ing, A) for m in sizes]
+    if len(per_clause) == 1:            # keep the (possibly lazy, large) single body list lazy
+        for body in per_clause[0]:
+            yield ("b", ((cs[0], body),), end)
+        return
     for bodies in itertools.product(*per_clause):
         yield ("b", tuple(zip(cs, bodies)), end)
 
